@@ -269,10 +269,13 @@ func (c *Client) connect() error {
 	// Client is ok, we now open XMPP session with TLS negotiation if possible and session resume or binding
 	// depending on state.
 	if c.Session, err = NewSession(c, state); err != nil {
-		// Try to get the stream close tag from the server.
+		// Try to get the stream close tag from the server: on the connection that failed. The decoder is taken here and
+		// not inside the go routine, which may only get to run when the next attempt has replaced the connection:
+		// it would then read the new connection next to the negotiation going on there.
+		decoder := c.transport.GetDecoder()
 		go func() {
 			for {
-				val, err := stanza.NextPacket(c.transport.GetDecoder())
+				val, err := stanza.NextPacket(decoder)
 				if err != nil {
 					// The failure is reported through the error returned by connect. No session
 					// was established, so there is no disconnection to announce: a Disconnected
